@@ -41,7 +41,22 @@ pub struct TaskCfg {
     /// statement of a cycle - where a pause requested between two cycles lands - is a call).
     #[serde(default)]
     pub inject_front: bool,
+    /// Statements that get a label (`L<id>: stmt`; no JMP, so the label is semantically
+    /// neutral). The runtime lowers `L: stmt` to a Label statement around the inner one and
+    /// calls the hook for both.
+    #[serde(default)]
+    pub labels: Vec<LabelSel>,
 }
+
+#[derive(Clone, Copy, Debug, PartialEq, Eq, Serialize, Deserialize)]
+pub struct LabelSel {
+    /// Prefer compound statements and statements containing a call.
+    pub prefer: bool,
+    pub idx: u16,
+}
+
+/// Pseudo statement id of the Label statement wrapped around statement `id`.
+pub const LABEL_BASE: u32 = 1 << 30;
 
 impl TaskCfg {
     pub fn single() -> TaskCfg {
@@ -55,6 +70,7 @@ impl TaskCfg {
             repeat: 1,
             inject_calls: false,
             inject_front: false,
+            labels: Vec::new(),
         }
     }
 
@@ -82,6 +98,15 @@ impl TaskCfg {
         let repeat = 1 + r.pick(max_repeat.max(1));
         let inject_calls = !r.chance(1, 5);
         let inject_front = inject_calls && r.chance(1, 2);
+        let mut labels = Vec::new();
+        if r.chance(1, 2) {
+            for _ in 0..1 + r.pick(4) {
+                labels.push(LabelSel {
+                    prefer: r.chance(2, 3),
+                    idx: (r.word() >> 16) as u16,
+                });
+            }
+        }
         TaskCfg {
             ninst,
             wrap,
@@ -92,6 +117,7 @@ impl TaskCfg {
             repeat,
             inject_calls,
             inject_front,
+            labels,
         }
     }
 
@@ -473,10 +499,110 @@ fn wrap_once(
     Ok((prog, ranges, injected, off))
 }
 
-/// Printed source with our own CONFIGURATION.
+fn expr_has_call(e: &Expr) -> bool {
+    match e {
+        Expr::Call { .. } => true,
+        Expr::Un(_, a) => expr_has_call(a),
+        Expr::Bin(_, a, b) => expr_has_call(a) || expr_has_call(b),
+        Expr::Std(_, args) => args.iter().any(expr_has_call),
+        _ => false,
+    }
+}
+
+/// Statements that may carry a label: (id, preferred). Statements directly inside a CASE arm
+/// are left alone (`name:` would read as a case label there), empty statements too.
+fn label_candidates(prog: &Program) -> Vec<(u32, bool)> {
+    fn walk(block: &[Stmt], in_case_arm: bool, out: &mut Vec<(u32, bool)>) {
+        for s in block {
+            let preferred = match &s.kind {
+                StmtKind::If { .. }
+                | StmtKind::Case { .. }
+                | StmtKind::For { .. }
+                | StmtKind::While { .. }
+                | StmtKind::Repeat { .. }
+                | StmtKind::FbCall { .. }
+                | StmtKind::CallStmt(_) => true,
+                StmtKind::Assign { value, .. } => expr_has_call(value),
+                _ => false,
+            };
+            if !in_case_arm && !matches!(s.kind, StmtKind::Empty) {
+                out.push((s.id, preferred));
+            }
+            match &s.kind {
+                StmtKind::If {
+                    then_,
+                    elsifs,
+                    else_,
+                    ..
+                } => {
+                    walk(then_, false, out);
+                    for (_, b) in elsifs {
+                        walk(b, false, out);
+                    }
+                    if let Some(b) = else_ {
+                        walk(b, false, out);
+                    }
+                }
+                StmtKind::Case { arms, else_, .. } => {
+                    for (_, b) in arms {
+                        walk(b, true, out);
+                    }
+                    if let Some(b) = else_ {
+                        walk(b, true, out);
+                    }
+                }
+                StmtKind::For { body, .. }
+                | StmtKind::While { body, .. }
+                | StmtKind::Repeat { body, .. } => walk(body, false, out),
+                _ => {}
+            }
+        }
+    }
+    let mut out = Vec::new();
+    for p in &prog.pous {
+        walk(&p.body, false, &mut out);
+    }
+    out
+}
+
+pub fn labelled_statements(prog: &Program, cfg: &TaskCfg) -> BTreeSet<u32> {
+    let cands = label_candidates(prog);
+    let preferred: Vec<u32> = cands.iter().filter(|c| c.1).map(|c| c.0).collect();
+    let mut out = BTreeSet::new();
+    for l in &cfg.labels {
+        if l.prefer && !preferred.is_empty() {
+            out.insert(preferred[(l.idx as usize * preferred.len()) >> 16]);
+        } else if !cands.is_empty() {
+            out.insert(cands[(l.idx as usize * cands.len()) >> 16].0);
+        }
+    }
+    out
+}
+
+/// Printed source with our own CONFIGURATION and the labels. Returns the source and, per
+/// statement id, (offset of the statement's first token, 0-based line); the Label statement
+/// around statement `id` is reported under `LABEL_BASE + id` (it starts at the label).
 pub fn wrapped_source(prog: &Program, cfg: &TaskCfg) -> (String, BTreeMap<u32, (u32, u32)>) {
     let printed = print_program(prog, PrintOpts::default());
-    let mut src = printed.source.clone();
+    let labelled = labelled_statements(prog, cfg);
+    // insert the labels back to front so that earlier offsets stay valid while editing
+    let mut labelled_src = printed.source.clone();
+    let mut by_offset: Vec<(u32, u32)> = labelled
+        .iter()
+        .filter_map(|id| printed.stmt_pos.get(id).map(|p| (p.offset, *id)))
+        .collect();
+    by_offset.sort_unstable();
+    for (offset, id) in by_offset.iter().rev() {
+        labelled_src.insert_str(*offset as usize, &format!("L{id}: "));
+    }
+    let shift_before = |offset: u32| -> u32 {
+        by_offset
+            .iter()
+            .filter(|(o, _)| *o < offset)
+            .map(|(_, id)| format!("L{id}: ").len() as u32)
+            .sum()
+    };
+    let mut src = labelled_src;
     let mut globals_block = String::new();
     if let Some(at) = src.find("\nCONFIGURATION Conf\n") {
         let conf = src[at + 1..].to_string();
@@ -513,11 +639,16 @@ pub fn wrapped_source(prog: &Program, cfg: &TaskCfg) -> (String, BTreeMap<u32, (
         }
         src.push_str("END_CONFIGURATION\n");
     }
-    let pos = printed
-        .stmt_pos
-        .iter()
-        .map(|(id, p)| (*id, (p.offset, p.line)))
-        .collect();
+    let mut pos: BTreeMap<u32, (u32, u32)> = BTreeMap::new();
+    for (id, p) in &printed.stmt_pos {
+        let base = p.offset + shift_before(p.offset);
+        if labelled.contains(id) {
+            pos.insert(LABEL_BASE + *id, (base, p.line));
+            pos.insert(*id, (base + format!("L{id}: ").len() as u32, p.line));
+        } else {
+            pos.insert(*id, (base, p.line));
+        }
+    }
     (src, pos)
 }
 
@@ -774,6 +905,20 @@ pub fn prepare(
                 return Prep::Internal(format!("executed statement {} has no location", ev.stmt));
             };
             max_depth = max_depth.max(ev.depth);
+            // `L: stmt` is a Label statement around the inner one: the hook is called for
+            // the label (range from the label to the end of the statement) and again for
+            // the inner statement
+            if let Some((ls, le)) = loc_of.get(&(LABEL_BASE + ev.stmt)).copied() {
+                pos.push(Pos {
+                    cycle: c,
+                    stmt: LABEL_BASE + ev.stmt,
+                    depth: ev.depth,
+                    inst,
+                    thread: inst_thread[inst],
+                    start: ls,
+                    end: le,
+                });
+            }
             pos.push(Pos {
                 cycle: c,
                 stmt: ev.stmt,
@@ -830,6 +975,14 @@ pub fn prepare(
     }))
 }
 
+fn show_stmt(id: u32) -> String {
+    if id >= LABEL_BASE {
+        format!("label L{0} of {0}", id - LABEL_BASE)
+    } else {
+        id.to_string()
+    }
+}
+
 impl World {
     pub fn has_bp(&self, q: usize, bps: &[(u32, u32)]) -> bool {
         let p = &self.pos[q];
@@ -875,7 +1028,7 @@ impl World {
             "trace position {q} (cycle {}, line {}, statement {}, call depth {}, thread {})",
             p.cycle + 1,
             self.line_of.get(&p.stmt).copied().unwrap_or(0),
-            p.stmt,
+            show_stmt(p.stmt),
             p.depth,
             p.thread
         )
@@ -886,8 +1039,9 @@ impl World {
             None => "<no location>".into(),
             Some(s) => match self.stmt_at.get(&s) {
                 Some(id) => format!(
-                    "line {} (statement {id})",
-                    self.line_of.get(id).copied().unwrap_or(0)
+                    "line {} (statement {})",
+                    self.line_of.get(id).copied().unwrap_or(0),
+                    show_stmt(*id)
                 ),
                 None => format!("offset {s} (not the start of a statement)"),
             },
